@@ -2,7 +2,7 @@
    documented-format model (Format.enc / Format.dec) and the certified judgement layout_ok. *)
 From Coq Require Import ZArith List Bool Lia.
 Import ListNotations.
-From XO Require Import Slots Strides BufOps Types Format Check LayoutProofs RoundTrip Update UpdateSize.
+From XO Require Import Slots Strides BufOps Types Format Check LayoutProofs RoundTrip Update UpdateSize UpdateFrame.
 Open Scope Z_scope.
 
 (* an image occupies exactly [off, off+len img): placing it changes no other byte *)
@@ -33,6 +33,15 @@ Proof. exact enc_static_size. Qed.
 Theorem C03_assignment_keeps_extent : forall t v p x v' img,
   assign t v p x = Some v' -> enc t v = Some img -> exists img', enc t v' = Some img' /\ len img' = len img.
 Proof. exact assign_keeps_extent. Qed.
+(* byte level: the image after an honoured assignment is the image before with the sub-image of the
+   assigned element (same length) replaced in place; header words, offset tables, sizes, padding and
+   every other element are untouched -- every type, every depth, every axis order *)
+Theorem C03_assignment_writes_inside_the_element : forall t v p x v' img,
+  assign t v p x = Some v' -> enc t v = Some img ->
+  exists st old x' a b img', vget v p = Some old /\ sub_ty t p = Some st /\ retag old x = Some x' /\
+    enc st old = Some a /\ enc st x' = Some b /\ len a = len b /\ enc t v' = Some img' /\
+    exists pre post, img = pre ++ a ++ post /\ img' = pre ++ b ++ post.
+Proof. exact assign_frame. Qed.
 Theorem C03_slot_rounding : forall n, n <= slot n < n + 8 /\ slot n mod 8 = 0.
 Proof. exact slot_spec. Qed.
 Print Assumptions C03_write_frame.
@@ -42,3 +51,4 @@ Print Assumptions C03_slot_rounding.
 Print Assumptions C03_reported_size_is_extent_general.
 Print Assumptions C03_static_size.
 Print Assumptions C03_assignment_keeps_extent.
+Print Assumptions C03_assignment_writes_inside_the_element.
